@@ -81,6 +81,7 @@ Fixpoint run_from (s : t) (i : ops) : option outs :=
       end
   end.
 
+(** Without a configuration op the case runs on [TokenMemoryCache::new(0, 0)] (as the hook does). *)
 Definition run (i : ops) : outs :=
   match i with
   | [0; mn; mt] :: i' =>
@@ -88,7 +89,11 @@ Definition run (i : ops) : outs :=
       | Some o => [0] :: o
       | None => [PANIC]
       end
-  | _ => map (fun _ => [-1]) i
+  | _ =>
+      match run_from (init 0 0) i with
+      | Some o => o
+      | None => [PANIC]
+      end
   end.
 
 (** Oracle on the implementation's outputs: every token returned by [take server] was inserted
@@ -119,13 +124,16 @@ Fixpoint oracle_from (zero : bool) (avail : list (Z * Z)) (i : ops) (o : outs) :
                | Some avail' => oracle_from zero avail' i' o'
                | None => false
                end
-      | _, _ => false
+      | 1 :: _, _ => false
+      | 2 :: _, _ => false
+      | _, _ => oracle_from zero avail i' o'
       end
   | _, _ => false
   end.
 
 Definition oracle (i : ops) (o : outs) : bool :=
   match i, o with
+  | _, [[-999]] => false
   | [0; mn; mt] :: i', [0] :: o' => oracle_from ((mn =? 0) || (mt =? 0)) [] i' o'
-  | _, _ => false
+  | _, _ => oracle_from true [] i o
   end.
